@@ -27,7 +27,8 @@ from apischema.aliases import Aliaser
 from apischema.cache import CacheAwareDict, cache
 from apischema.conversions import Conversion
 from apischema.conversions.conversions import AnyConversion, DefaultConversion
-from apischema.deserialization import deserialization_method
+from apischema.deserialization import deserialization_method, preformat_error
+from apischema.deserialization.methods import format_error
 from apischema.methods import method_registerer
 from apischema.objects import ObjectField
 from apischema.ordering import Ordering
@@ -252,7 +253,18 @@ def resolver_resolve(
     # graphql deserialization will give Enum objects instead of strings
     def handle_enum(tp: AnyType) -> Optional[AnyConversion]:
         if is_type(tp) and issubclass(tp, Enum):
-            return Conversion(identity, source=Any, target=tp)
+
+            def enum_member(obj: Any) -> Any:
+                # an explicit null is not a member (Optional is handled before)
+                if not isinstance(obj, tp):
+                    from apischema import settings
+
+                    values = [member.value for member in tp]
+                    error = preformat_error(settings.errors.one_of, values)
+                    raise ValidationError(format_error(error, obj))
+                return obj
+
+            return Conversion(enum_member, source=Any, target=tp)
         return default_deserialization(tp)
 
     parameters, info_parameter = [], None
